@@ -1393,6 +1393,20 @@ func (c *FnCtx) addrOf(env *Env, x ast.Expr, n ast.Node) Val {
 					return Val{T: cell.T, Typ: types.NewPointer(o.Type())}
 				}
 			}
+		} else {
+			// &x in a specification (loop invariant, call-site assertion): x a local of the
+			// function that lives in memory; the innermost declaration of that name in scope
+			var best types.Object
+			for o := range env.st.vars {
+				if v, ok := o.(*types.Var); ok && c.boxed[v] && o.Name() == y.Name {
+					if best == nil || o.Pos() > best.Pos() {
+						best = o
+					}
+				}
+			}
+			if best != nil {
+				return Val{T: env.st.vars[best].T, Typ: types.NewPointer(best.Type())}
+			}
 		}
 	case *ast.CompositeLit:
 		return c.evalCompositeLit(env, y, true)
@@ -1579,6 +1593,9 @@ func (c *FnCtx) initOpaque(env *Env, addr string, t types.Type) {
 		c.ghostSet(env.st, "bigval", addr, "0")
 	case "sync.Mutex", "sync.RWMutex":
 		c.ghostSet(env.st, "lockstate", addr, "0")
+	case "strings.Builder":
+		c.ghostSet(env.st, "sbrunes", addr, "0")
+		c.ghostSet(env.st, "sbopen", addr, "0")
 	}
 }
 
